@@ -1,5 +1,5 @@
-\* exhaustive: every sequence of <= 3 fields over the wide alphabet (34 field shapes), both encodings
-CONSTANTS MaxFields = 3  MaxRecords = 1  Alpha = "wide"  MaxLevel = 99
+\* exhaustive: every sequence of <= 3 fields over the mid alphabet (25 field shapes), both encodings
+CONSTANTS MaxFields = 3  MaxRecords = 1  Alpha = "mid"  MaxLevel = 99
 INIT Init
 NEXT Next
 CONSTRAINT Bound
